@@ -67,13 +67,22 @@ def handle (j : Json) : Json :=
     | some a, some b =>
       let gs := parseGroups (obj j "groups")
       let valid := decide (Valid gs a b)
-      match format a b gs with
-      | some hs =>
+      match format a b gs, headerPath JediModel.Gen.C07.diffFromHeader project fromP toP,
+          headerPath JediModel.Gen.C07.diffToHeader project fromP toP with
+      | some hs, .ok fh, .ok th =>
         jobj [("a", jlines a), ("b", jlines b), ("valid", jbool valid),
-              ("text", jchars (diffText (displayPath project fromP) (displayPath project toP) hs)),
+              ("text", jchars (diffText fh th hs)),
               ("applied", jopt jlines (applyPatch hs a))]
-      | none => jobj [("a", jlines a), ("b", jlines b), ("valid", jbool valid), ("text", .null), ("applied", .null)]
+      | some _, _, _ => jobj [("error", jstr "header")]
+      | none, _, _ => jobj [("a", jlines a), ("b", jlines b), ("valid", jbool valid), ("text", .null), ("applied", .null)]
     | _, _ => jobj [("error", jstr "IndexError")]
+  | "renames" =>
+    let project := parsePath (obj j "project")
+    let renames := (arr j "renames").map fun r => match asArr r with
+      | [a, b] => (parsePath a, parsePath b)
+      | _ => ([], [])
+    jchars (renameLines JediModel.Gen.C07.tryRelativeToSel JediModel.Gen.C07.renameLinePieces
+      JediModel.Gen.C07.renameLineArgs project renames)
   | "fs" =>
     let files := (arr j "files").map fun f => match asArr f with
       | [p, c] => (parsePath p, (asStr c).toList)
